@@ -229,9 +229,11 @@ def case(spec):
             # two-sided non-interleaved .ssd/.sdd: side 0 then side 1 (doc/dfs.1: "1 or 2 sides")
             spt = rng.choice([10, 18])
             tracks = rng.choice([35, 40, 80]) if spt == 10 else rng.choice([35, 40])
-            tot = tracks * spt
+            lo = {(10, 35): 20, (10, 40): 351, (10, 80): 401, (18, 35): 40, (18, 40): 631}[(spt, tracks)]
+            tot = rng.choice([tracks * spt, tracks * spt, rng.randint(lo, tracks * spt), tracks * spt - rng.randint(1, 10)])
+            tot1 = rng.choice([tot, tracks * spt, rng.randint(lo, tracks * spt)])
             s0 = dm.gen_surface(rng, variant='acorn', spt=spt, total=tot, tracks=tracks, sid=0, maxlen_sectors=20)
-            s1 = dm.gen_surface(rng, variant='acorn', spt=spt, total=tot, tracks=tracks, sid=1, maxlen_sectors=20)
+            s1 = dm.gen_surface(rng, variant='acorn', spt=spt, total=tot1, tracks=tracks, sid=1, maxlen_sectors=20)
             raw = s0.image() + s1.image()
             path = os.path.join(tmp, 'two.%s' % dm.ext_for(s0))
             write_file(path, raw)
